@@ -251,6 +251,17 @@ def tree_tie(ctx, differ):
                 cases.append((t, ev, c15_tree.coq_of_node(node), c15_tree.show_node(node)))
         except Exception:  # noqa: generator produced something the IRnode constructor rejects
             continue
+    # directed: every binop with an identity/absorbing literal next to an operand that loses / keeps a unique_symbol
+    # (the _check_symbols bookkeeping after dead-branch elimination)
+    dead = ["if", 1, "y", ["seq", ["unique_symbol", "s1"], "x"]]
+    keep = ["seq", ["unique_symbol", "s2"], ["sload", 0]]
+    for o in list(BOPS_ARITH) + ["shl", "shr", "sar"]:
+        for lit in (0, 1, W - 1):
+            for opnd in (dead, keep):
+                for t in ([o, opnd, lit], [o, lit, opnd]):
+                    with anchor_settings(Settings(evm_version="cancun")):
+                        node = IRnode.from_list(t)
+                        cases.append((t, "cancun", c15_tree.coq_of_node(node), c15_tree.show_node(node)))
     # generated seq lists made of mergeable runs (exact-output tie of the merge functions through optimize)
     nseq = 250 if ctx.tier != "thorough" else 2000
     k = 0
@@ -319,6 +330,13 @@ def tree_tie(ctx, differ):
                 break
         if r != m:
             mism.append((t, ev, s0, r, m))
+    # permanent regression probe (IR replay) of optimizer-symbol-check-stale-set
+    probe = ["add", ["if", 1, 0, ["seq", ["unique_symbol", "s"], 2]], ["sload", 1]]
+    pr = c15_tree.real_optimize(probe, "cancun")
+    if pr == "PANIC":
+        report_once(ctx, "optimizer-symbol-check-stale-set",
+                    "optimizer.optimize panics (missing symbols) after dead-branch elimination under a rewritten binop",
+                    {"ir": repr(probe), "observed": "CompilerPanic", "expected": "(sload 1)"})
     ctx.corr["tree_cases"] = len(cases)
     ctx.corr["tree_cases_rewritten"] = changed
     ctx.corr["tree_cases_with_merge"] = merged
@@ -532,7 +550,12 @@ def lower_tie(ctx):
     cases = []
     with anchor_settings(Settings(evm_version="cancun")):
         while len(cases) < want:
-            t = extra.pop() if extra else c15_tree.gen_tree(rnd, rnd.choice([2, 3, 4, 5]))
+            if extra:
+                t = extra.pop()
+            elif len(cases) % 2 == 0:
+                t = c15_tree.gen_tree(rnd, rnd.choice([2, 3, 4, 5]))
+            else:       # control flow: repeat / break / continue / goto / label / ...
+                t = c15_tree.gen_cf(rnd, rnd.choice([2, 3, 4]), ["x", "y"], 0, {"n": 0})
             t = ["with", "x", ["calldataload", 0], ["with", "y", ["calldataload", 32], t]]
             try:
                 node = IRnode.from_list(t)
@@ -603,6 +626,11 @@ def glue_corpus(ctx):
                 continue
             ref = observe_contract(c["src"], Config(False, "none", evm), plan, HELPER, abi)
         except Exception as e:  # noqa: contract does not compile unoptimised -> not this property's concern
+            if c["name"] == "c15_dead_extcall" and type(e).__name__ == "CompilerPanic":
+                # make_plan compiles with the default (optimising) settings
+                report_once(ctx, "optimizer-symbol-check-stale-set",
+                            "valid program: the legacy optimiser panics (_check_symbols) on a dead branch holding an extcall",
+                            {"contract": c["name"], "source": c["src"], "error": str(e)[:200]})
             ctx.log(f"glue: {c['name']} skipped: {type(e).__name__}")
             continue
         n += 1
@@ -617,6 +645,10 @@ def glue_corpus(ctx):
                 d.update({"contract": c["name"], "source": c["src"], "config_b": f"legacy-{lvl}-{evm}"})
                 report_once(ctx, "truthy-or-under-if-branch",
                             "truthy-context rule (or x c)->1 applied to the value of an if branch", d)
+            elif d is not None and c["name"] == "c15_dead_extcall" and d.get("what") == "compile-exception":
+                d.update({"contract": c["name"], "source": c["src"], "config_b": f"legacy-{lvl}-{evm}"})
+                report_once(ctx, "optimizer-symbol-check-stale-set",
+                            "valid program compiles at optimize=none but the legacy optimiser panics (_check_symbols)", d)
             elif d is not None and found < 3:
                 found += 1
                 if "call" in d:
